@@ -227,6 +227,18 @@ def independence(ck, prefix, config, jobs, orders=('given', 'reversed', 'last-ar
                 ck.violation('%s:%s:result-depends-on-call-order' % (prefix, name),
                              '%s returns %r when called in %s order and %r in the given order' % (name, float(r2.v[k]), o, float(ref.v[idx][k])),
                              dict(function=name, ints=q['i'][:3].tolist(), doubles=q['d'][:4].tolist(), order=o, config=config))
+        # the library as the project's own build system makes it (meson: its compiler arguments and options, not the monitor's): same bits
+        try:
+            r5 = Lib(config, 'meson', shuffle=False).run(req, strs); n += len(req)
+            bad = np.nonzero(((r5.v.view('u8') != ref.v.view('u8')) & ~(np.isnan(r5.v) & np.isnan(ref.v))) | (r5.status != ref.status))[0]
+            for k in bad[:2]:
+                q = req[k]
+                ck.violation('%s:%s:project-build-differs-from-the-monitor-build' % (prefix, name),
+                             '%s returns %r (status %d) in the library built by meson and %r (status %d) in the monitor\'s build of the same sources' % (
+                                 name, float(r5.v[k]), int(r5.status[k]), float(ref.v[k]), int(ref.status[k])),
+                             dict(function=name, ints=q['i'][:3].tolist(), doubles=q['d'][:4].tolist(), config=config, build='meson'))
+        except ExecCrash as ex:
+            ck.violation('%s:%s:project-build-dies' % (prefix, name), '%s kills the executor (rc %d) in the library built by meson' % (name, ex.rc), dict(function=name, config=config, build='meson'))
         # a host that traps floating-point exceptions (feenableexcept, gfortran -ffpe-trap): every call still answers, with the same bits
         try:
             r4 = Lib(config, shuffle=False, env={'XV_FPTRAP': '1'}).run(req, strs); n += len(req)
